@@ -48,7 +48,7 @@ def ladder(rm: REModel):
 
 def d1_tables(ctx, rm: REModel):
     lad = ladder(rm)
-    ctx.require(len(lad) >= 4, "anchor vanished: the except ladder of RunEngine._run")
+    ctx.require(len(lad) >= 2, "anchor vanished: the except ladder of RunEngine._run")
     run = rm.run
     for kind, want in ORACLE.items():
         got, by = None, None
@@ -64,11 +64,12 @@ def d1_tables(ctx, rm: REModel):
                nontrivial=True, where=where(run, by if by is not None else rm.outer_try))
     # the fail handler records the exception text as reason and re-raises the exception itself
     for classes, status, h in lad:
-        if classes == ["Exception"]:
+        if "Exception" in classes:
             txt = A.norm(h)
             name = h.name
             ok_reason = any(isinstance(s, ast.Assign) and A.chain(s.targets[0]) == "exit_reason" and A.norm(s.value) == f"str({name})" for s in h.body)
-            ok_raise = any(isinstance(s, ast.Raise) and (s.exc is None or A.chain(s.exc) == name) for s in h.body)
+            # (a handler shared with GeneratorExit re-raises under the branch for ordinary exceptions)
+            ok_raise = any(isinstance(s, ast.Raise) and (s.exc is None or A.chain(s.exc) == name) for s in A.walk_stmts(h.body))
             ctx.ob("C02.D1-fail-reason", cname(run, h, "except Exception: exit_reason = str(err)"), ok_reason,
                    "" if ok_reason else "the failing exception's text is no longer recorded as the reason", where=where(run, h))
             ctx.ob("C02.D1-fail-reraise", cname(run, h, "except Exception: re-raise"), ok_raise,
@@ -129,7 +130,27 @@ def d1_tables(ctx, rm: REModel):
     ep = rm.repo.func(PP, "run_wrapper.except_plan")
     ifs = [s for s in ep.node.body if isinstance(s, ast.If)]
     ok = False
-    if ifs and "isinstance(e, RunEngineControlException)" in A.norm(ifs[0].test):
+    # decided per case (control exception or not) on the specialised body: exactly one close_run with the documented arguments
+    pname = ep.node.args.args[0].arg if ep.node.args.args else "e"
+    case_ok = []
+    for is_ctrl in (True, False):
+        env_ = {f"isinstance({pname}, RunEngineControlException)": is_ctrl, f"not isinstance({pname}, RunEngineControlException)": not is_ctrl}
+        flat_ = list(A.walk_stmts(q.specialise(A.body(ep.node), env_)))
+        calls_ = [(st_, c) for st_ in flat_ for c in A.calls_in(st_) if A.call_name(c) == "close_run"]
+        first_ret = next((i for i, st_ in enumerate(flat_) if isinstance(st_, ast.Return)), len(flat_))
+        calls_ = [(st_, c) for st_, c in calls_ if flat_.index(st_) <= first_ret]
+        if len(calls_) != 1:
+            case_ok.append(False)
+            continue
+        st_, c = calls_[0]
+        es = A.kw(c, "exit_status")
+        rs = A.kw(c, "reason")
+        es_t = A.norm(q.straight_line_value(flat_[:flat_.index(st_)], es)) if es is not None else None
+        rs_t = A.norm(q.straight_line_value(flat_[:flat_.index(st_)], rs)) if rs is not None else "None"
+        case_ok.append((es_t == f"{pname}.exit_status" and rs_t == "None") if is_ctrl else (es_t == "'fail'" and rs_t == f"str({pname})"))
+    if all(case_ok):
+        ok = True
+    elif ifs and "isinstance(e, RunEngineControlException)" in A.norm(ifs[0].test):
         t_calls = A.find_calls(ast.Module(body=ifs[0].body, type_ignores=[]), "close_run")
         f_calls = A.find_calls(ast.Module(body=ifs[0].orelse, type_ignores=[]), "close_run")
         ok = (len(t_calls) == 1 and A.norm(A.kw(t_calls[0], "exit_status")) == "e.exit_status"
